@@ -149,6 +149,9 @@ class Speaker:
         data = self.open_bytes(s) if self.open_bytes else R.build_open(self.asn, self.hold, self.router_id, self.caps)
         s.open_tx = data
         s.send(data)
+        if s.open_rx is not None and self.auto_keepalive and not s.sent_ka and not self.silent:
+            s.sent_ka = True
+            s.send(R.keepalive())
 
     def _handle(self, s: Session, mtype: int, body: bytes, when: float) -> None:
         if mtype == R.OPEN:
@@ -166,7 +169,8 @@ class Speaker:
                 return
             if self.auto_open and self.open_after_rx:
                 self.send_open(s)
-            if self.auto_keepalive and not s.sent_ka:
+            if self.auto_keepalive and not s.sent_ka and s.sent_open:
+                # a speaker confirms the peer's OPEN only once it has sent its own
                 s.sent_ka = True
                 s.send(R.keepalive())
         elif mtype == R.KEEPALIVE:
